@@ -278,6 +278,56 @@ func serveTags(c serveCase, o serveObs) []string {
 			t = append(t, "serve:listing-filtered")
 		}
 	}
+	op := o.fs.opened
+	if len(op) > 0 {
+		first := op[0]
+		if first == "" {
+			t = append(t, "serve:empty-filename")
+		}
+		if strings.IndexByte(first, 0) >= 0 {
+			t = append(t, "serve:nul-in-filename")
+		}
+		for _, n := range op[1:] {
+			if n != first && n != "" && strings.HasPrefix(first, n) {
+				t = append(t, "serve:enotdir-prefix-walk")
+				break
+			}
+		}
+		if n, _, err := o.fs.lookup(first); err == nil && n.k == 'd' {
+			t = append(t, "serve:dir-request")
+			if (kindOf == "file" || kindOf == "redirect") && len(op) > 1 && op[len(op)-1] != first {
+				t = append(t, "serve:index-file-used")
+			}
+			if kindOf == "listing" && o.listDir != first {
+				t = append(t, "serve:index-is-directory")
+			}
+			// an index candidate that exists but was never stat'ed was skipped as hidden
+			for _, ix := range c.index {
+				if ix == "" {
+					continue
+				}
+				cand := path.Clean(resolve(c.cwd, first) + "/" + path.Clean("/"+ix))
+				if _, _, e := o.fs.lookup(cand); e == nil {
+					seen := false
+					for _, n := range op[1:] {
+						if resolve(c.cwd, n) == cand {
+							seen = true
+						}
+					}
+					if !seen {
+						t = append(t, "serve:hidden-index-skipped")
+					}
+					break
+				}
+			}
+		}
+	}
+	if !strings.HasPrefix(c.root, "/") {
+		t = append(t, "serve:relative-root")
+	}
+	if R == "/" {
+		t = append(t, "serve:root-is-slash")
+	}
 	if (kindOf == "notfound" || kindOf == "passthru") && len(o.fs.opened) == 1 && !trav {
 		t = append(t, "trivial")
 	}
@@ -364,6 +414,12 @@ func matchTags(c matchCase, o matchObs) []string {
 	}
 	if strings.Contains(c.path, "..") {
 		t = append(t, "matchfile:dotdot")
+	}
+	if c.fallback {
+		t = append(t, "matchfile:fallback-policy")
+	}
+	if o.matched && o.typ == "directory" {
+		t = append(t, "matchfile:directory")
 	}
 	if !o.matched && len(o.fs.opened) <= 1 && !strings.Contains(c.path, "..") {
 		t = append(t, "trivial")
